@@ -29,6 +29,8 @@ RAW_FILES = [("\udcae.txt", "raw byte name\n"), ("lat\udce9.txt", "latin1 name\n
 DIR_POOL = ["dir1", "sub", "docs", "deep", "pics", "d.e", "with space"]
 # names that match the configured archive pattern (\.zip$) without being the archive that is browsed
 ZIPNAMED_DIRS = ["old.zip", "x.zip"]
+# names that merely BEGIN with two dots (the Kubernetes / git-sync "..data" layout)
+DOTDOT_DIRS = ["..data", "..2024_01_01"]
 
 
 def nested_zip_bytes():
@@ -107,6 +109,8 @@ def gen_tree(rng, feats=None):
         names.append(rng.choice(RAW_DIRS))
     if "zipnames" in feats or rng.random() < 0.3:
         names.append(rng.choice(ZIPNAMED_DIRS))
+    if "dotdotnames" in feats or rng.random() < 0.3:
+        names.append(rng.choice(DOTDOT_DIRS))
     if "prefixes" in feats or rng.random() < 0.3:
         # a sibling whose name is a proper string prefix of another directory's name
         base = rng.choice([n for n in names if len(n) > 2 and all(ord(c) < 128 for c in n)] or ["docs"])
@@ -217,6 +221,13 @@ def gen_tree(rng, feats=None):
             i += 1
         return "/".join([".."] * (len(a) - i) + b[i:])
 
+    dd_files = [f0 for f0 in files if any(c.startswith("..") and c != ".." for c in f0.split("/")[:-1])]
+    for k, f0 in enumerate(rng.sample(dd_files, min(2, len(dd_files)))):
+        d = rng.choice(dirs)
+        p = join(d, "via%d" % k)
+        if p not in used and rel(d, f0):
+            add({"path": p, "kind": "link", "dest": rel(d, f0), "flag": flag_for(d)})
+            used.add(p)
     for k in range(nl):
         d = rng.choice(dirs)
         name = "ln%d" % k
@@ -417,3 +428,31 @@ def weird_queries(rng, names):
     base = ["", "/", "a", "a/", "/a", "a//b", "d/a.txt", "d//a.txt", "./a", "d/./a.txt", "d/../a", "..", ".", "d/", "d/x/",
             "l", "l/l", "l2/f.txt", "l1", "x/y/z", "a.txt/x"]
     return base + ["/".join(rng.choice(names) for _ in range(rng.randrange(1, 4))) for _ in range(8)]
+
+
+def mutate_tree(tree, rng):
+    """the site after an update: some documents rewritten (same and different length), one removed,
+    new ones added, a link retargeted"""
+    out = []
+    files = [e for e in tree if e["kind"] == "file" and not e["path"].split("/")[-1].startswith(".")
+             and not e["path"].endswith((".abstract", "gophermap", ".zip", ".pyg", ".sh", ".mbox", ".msg"))]
+    victims = set(e["path"] for e in rng.sample(files, min(len(files), max(2, len(files) // 3))))
+    removed = rng.choice(sorted(victims)) if victims else None
+    for e in tree:
+        e = dict(e)
+        if e["path"] == removed:
+            continue
+        if e["path"] in victims:
+            e["data"] = e["data"][::-1] if rng.random() < 0.5 and e["data"] != e["data"][::-1] else e["data"] + "updated\n"
+        if e["kind"] == "link" and rng.random() < 0.3 and files:
+            tgt = rng.choice(files)["path"]
+            if tgt != removed:
+                e["dest"] = "/" + tgt
+        out.append(e)
+    have = set(e["path"] for e in out)
+    if "added.txt" not in have:
+        out.append({"path": "added.txt", "kind": "file", "data": "new after the update\n", "flag": False})
+    if "newdir" not in have:
+        out.append({"path": "newdir", "kind": "dir", "explicit": False, "flag": False})
+        out.append({"path": "newdir/fresh.txt", "kind": "file", "data": "fresh\n", "flag": False})
+    return out
